@@ -368,6 +368,9 @@ func (d *jsonDecoder) unmarshalScalar(fd protoreflect.FieldDescriptor) (protoref
 	case protoreflect.BytesKind:
 		return jsonValueDecode(d.dec, protoreflect.ValueOfBytes)
 	case protoreflect.EnumKind:
+		// Numbers are kept as literals, so that they can be checked to be valid enum numbers instead of being converted through float64.
+		d.dec.UseNumber()
+
 		var repr any
 		if err := d.dec.Decode(&repr); err != nil {
 			return protoreflect.Value{}, err
@@ -384,8 +387,10 @@ func (d *jsonDecoder) unmarshalScalar(fd protoreflect.FieldDescriptor) (protoref
 			} else if d.UnmarshalOptions.DiscardUnknown {
 				return protoreflect.Value{}, nil
 			}
-		case float64:
-			return protoreflect.ValueOfEnum(protoreflect.EnumNumber(v)), nil
+		case json.Number:
+			if n, err := strconv.ParseInt(string(v), 10, 32); err == nil {
+				return protoreflect.ValueOfEnum(protoreflect.EnumNumber(n)), nil
+			}
 		}
 
 		return protoreflect.Value{}, fmt.Errorf("invalid value for %v type: %v", fd.Kind(), repr)
